@@ -207,3 +207,38 @@ Theorem C06_duplicates_never_hang_joinfree : forall sp, EngineLive.nojoin sp -> 
   (Gen.States.is_completed (Engine.wf_state s) = true \/ Engine.wf_state s = Gen.States.PAUSED).
 Proof. exact EngineLive.no_stuck_joinfree. Qed.
 Print Assumptions C06_duplicates_never_hang_joinfree.
+
+(* "the effect of a single delivery", functionally, for the class simple_b (join-free, forward,
+   command-free definitions with constant guards; Proofs/EngineDen.v): a run in which start requests are
+   delivered again at any time and results are delivered again to action executions that already accepted
+   one - run7 checks exactly that against the state each event arrives in - mixed with operator pauses and
+   resumes, ends with the same number of executions of every task, the same final task states and the same
+   workflow state as a run in which every message is delivered once *)
+Require Import Mistral.Proofs.EngineDen.
+From Coq Require Import Permutation.
+Theorem C06_duplicates_same_result_simple : forall sp u1 u2 evs1 evs2,
+  EngineDen.simple_b sp = true -> EngineDen.run7 sp (Engine.init_with u1) evs1 = true -> forallb EngineDen.plain4 evs2 = true ->
+  let s1 := Engine.run sp u1 evs1 in let s2 := Engine.run sp u2 evs2 in
+  Engine.wf_created s1 = true -> Engine.pend s1 = [] -> Engine.wf_state s1 <> Gen.States.PAUSED ->
+  Engine.wf_created s2 = true -> Engine.pend s2 = [] ->
+  Engine.wf_state s1 = Engine.wf_state s2 /\
+  forall n, n < List.length sp ->
+    EngineDen.rows_named s1 n = EngineDen.rows_named s2 n /\
+    Permutation (EngineDen.states_named s1 n) (EngineDen.states_named s2 n).
+Proof. exact EngineDen.dup_same_result. Qed.
+Print Assumptions C06_duplicates_same_result_simple.
+
+(* hypotheses met: every start request delivered three times (once before the original), every result
+   twice, a pause and a resume in between *)
+Example C06_duplicates_same_result_nonvacuous :
+  let sA := fst (Engine.step EngineDen.den_demo Engine.init Engine.EStart) in
+  let evs2 := Engine.EStart :: EngineLive.drain_evs EngineDen.den_demo sA 200 in
+  let evs1 := EngineDen.with_dups (firstn 12 evs2) ++ [Engine.EPause; Engine.EResume] ++ EngineDen.with_dups (skipn 12 evs2) in
+  let s1 := Engine.run EngineDen.den_demo [] evs1 in let s2 := Engine.run EngineDen.den_demo [] evs2 in
+  EngineDen.run7 EngineDen.den_demo Engine.init evs1 = true /\ forallb EngineDen.plain6 evs1 = false /\
+  forallb EngineDen.plain4 evs2 = true /\
+  Engine.wf_created s1 = true /\ Engine.pend s1 = [] /\ Engine.wf_state s1 <> Gen.States.PAUSED /\
+  Engine.wf_created s2 = true /\ Engine.pend s2 = [] /\
+  Engine.wf_state s1 = Gen.States.CANCELLED /\ map (EngineDen.rows_named s1) [0; 1; 2; 3] = [1; 1; 2; 2] /\
+  List.length evs2 + 15 < List.length evs1.
+Proof. exact EngineDen.dup_demo_ok. Qed.
